@@ -2439,6 +2439,93 @@ theorem numpy_sub_paths_eq (p : Path V) :
         | curve3To e c => simp [hsp, flatNp, Path.vertices, Path.commands]
         | curve4To e c1 c2 => simp [hsp, flatNp, Path.vertices, Path.commands]
 
+/-- **path → HATCH polyline boundary / closed LWPOLYLINE → path** (`to_hatches(edge_path=False)`, `to_lwpolylines` of a closed
+    path: the entity stores the flattening `vs` with the closed flag; `from_hatch_polyline_path` / `make_path` call
+    `add_2d_polyline(vs, close=True)`): the path that comes back flattens - any distance, any twin - to `vs` again, vertex for
+    vertex, followed by the start vertex exactly when `vs` does not already end at its start (`isclose(rel_tol=1e-10)`) -/
+theorem polyline2d_closed_roundtrip (cfg : FlatCfg) (d : Rat) (n : Nat) (closeRel : V3 → V3 → Bool) (v0 v1 : V3)
+    (rest : List V3) :
+    pathFlat cfg d n (polyline2dLines closeRel ⟨0, 0, 0⟩ (v0 :: v1 :: rest) true) =
+      .ok (v0 :: v1 :: rest ++
+        (if closeRel v0 ((v1 :: rest).getLast (List.cons_ne_nil _ _)) then [] else [v0])) := by
+  obtain ⟨h1, _, h3⟩ := lineTo_fold_vertices (v1 :: rest) (Path.new v0)
+  have hl := h3 (by simp [Path.new])
+  set q := (v1 :: rest).foldl (fun (p : Path V3) v => p.lineTo v) (Path.new v0) with hq
+  have hverts : q.vertices = v0 :: v1 :: rest := by rw [h1]; simp [Path.new, Path.vertices]
+  have hstart : q.start = v0 := by
+    have := hverts; rw [Path.vertices] at this; exact (List.cons.inj this).1
+  have hne : q.elems ≠ [] := by
+    intro hc; rw [Path.vertices, hc] at hverts; simp at hverts
+  have hfin : q.fin = (v1 :: rest).getLast (List.cons_ne_nil _ _) := by
+    obtain ⟨init, hinit, _⟩ := verts_end q.start q.elems
+    have hv : q.vertices = init ++ [q.fin] := hinit
+    rw [hverts] at hv
+    have h2 : (v0 :: v1 :: rest).getLast? = some q.fin := by rw [hv]; simp
+    rw [List.getLast?_cons_cons, List.getLast?_eq_some_getLast (List.cons_ne_nil v1 rest)] at h2
+    exact (Option.some.inj h2).symm
+  unfold polyline2dLines
+  simp only [Bool.true_and]
+  rw [← hq, hstart, hfin]
+  cases hc : closeRel v0 ((v1 :: rest).getLast (List.cons_ne_nil _ _)) with
+  | true =>
+    simp only [Bool.not_true, Bool.false_eq_true, if_false, if_true, List.append_nil]
+    rw [lines_flat cfg d n q hne hl, hverts]
+  | false =>
+    simp only [Bool.not_false, if_true, Bool.false_eq_true, if_false]
+    have hl' : ∀ el ∈ (q.lineTo v0).elems, ∃ v, el = Elem.lineTo v := by
+      intro el hel
+      simp only [Path.lineTo, List.mem_append, List.mem_singleton] at hel
+      rcases hel with hel | rfl
+      · exact hl el hel
+      · exact ⟨v0, rfl⟩
+    rw [lines_flat cfg d n (q.lineTo v0) (by simp [Path.lineTo]) hl']
+    have : (q.lineTo v0).vertices = q.vertices ++ [v0] := by simp [Path.lineTo, Path.vertices, Elem.verts]
+    rw [this, hverts]
+
+/-- **path → closed 3D POLYLINE → path** (`to_polylines3d` of a closed path, `make_path` = `from_vertices(points, close=True)`):
+    the path that comes back flattens to the de-duplicated vertices, followed by the start vertex exactly when the last kept
+    vertex is not `isclose` to it (`Path.close()`) -/
+theorem polyline_closed_roundtrip (cfg : FlatCfg) (d : Rat) (n : Nat) (v0 v1 : V3) (rest : List V3)
+    (close : V3 → V3 → Bool) (hdistinct : dedupFrom close v0 (v1 :: rest) ≠ []) :
+    ∃ q : Path V3, q.vertices = v0 :: dedupFrom close v0 (v1 :: rest) ∧
+      pathFlat cfg d n (fromVertices close ⟨0, 0, 0⟩ (v0 :: v1 :: rest) true) =
+        .ok (v0 :: dedupFrom close v0 (v1 :: rest) ++ (if close v0 q.fin then [] else [v0])) := by
+  have hl := (fromVertices_lines close ⟨0, 0, 0⟩ (v0 :: v1 :: rest) false).2
+  have hv := fromVertices_vertices close ⟨0, 0, 0⟩ v0 v1 rest
+  set q := fromVertices close ⟨0, 0, 0⟩ (v0 :: v1 :: rest) false with hq
+  have hne : q.elems ≠ [] := by
+    intro hc
+    rw [Path.vertices, hc] at hv
+    simp only [List.flatMap_nil, List.cons.injEq] at hv
+    exact hdistinct hv.2.symm
+  have hstart : q.start = v0 := by
+    have := hv; rw [Path.vertices] at this; exact (List.cons.inj this).1
+  have hclosed : fromVertices close ⟨0, 0, 0⟩ (v0 :: v1 :: rest) true = q.closeP close := by
+    simp only [hq, fromVertices, Bool.false_eq_true, if_false, if_true]
+  refine ⟨q, hv, ?_⟩
+  rw [hclosed]
+  unfold Path.closeP Path.isClosed
+  cases he : q.elems with
+  | nil => exact absurd he hne
+  | cons a r =>
+    simp only
+    rw [hstart]
+    cases hc : close v0 q.fin with
+    | true =>
+      simp only [if_true, List.append_nil]
+      rw [lines_flat cfg d n q hne hl, hv]
+    | false =>
+      simp only [Bool.false_eq_true, if_false]
+      have hl' : ∀ el ∈ (q.lineTo v0).elems, ∃ v, el = Elem.lineTo v := by
+        intro el hel
+        simp only [Path.lineTo, List.mem_append, List.mem_singleton] at hel
+        rcases hel with hel | rfl
+        · exact hl el hel
+        · exact ⟨v0, rfl⟩
+      rw [lines_flat cfg d n (q.lineTo v0) (by simp [Path.lineTo]) hl']
+      have : (q.lineTo v0).vertices = q.vertices ++ [v0] := by simp [Path.lineTo, Path.vertices, Elem.verts]
+      rw [this, hv]
+
 /-! ## ties: the source text the hand model Model/FlattenPath.lean copies, re-extracted on every run -/
 
 section ties
